@@ -67,7 +67,8 @@ class Net:
 
             def send(self, b):
                 if getattr(net, "dead", False):
-                    raise ConnectionRefusedError("shm server is gone")  # what a connected UDP socket reports for a closed port
+                    self.resp = None  # a datagram to a closed port is sent without complaint; the ICMP error surfaces on the next call
+                    return
                 inbox, outbox = [bytes(b), api.ser(api.ShutdownCommand())], []
                 net.srv.sock = types.SimpleNamespace(recvfrom=lambda n: (inbox.pop(0), "c"), sendto=lambda data, addr: outbox.append(data), close=lambda: None)
                 net.srv.start()
@@ -77,6 +78,8 @@ class Net:
                 hook = getattr(net, "before_recv", None)
                 if hook is not None:
                     hook()
+                if getattr(net, "dead", False):
+                    raise ConnectionRefusedError("shm server is gone")
                 return self.resp
 
             def __getattr__(self, name):
@@ -239,7 +242,7 @@ class ShmClient(Harness):
                 client.socket.dead = True
                 for call in (lambda: client.get("k0", timeout_sec=0.3), lambda: client.purge("k1"), lambda: client.allocate("kz", 4, "d", timeout_sec=0.3)):
                     try:
-                        with deadline(10, "client-call-never-returns-when-the-server-is-gone"):
+                        with deadline(3, "client-call-never-returns-when-the-server-is-gone"):
                             call()
                     except Violation:
                         raise
